@@ -3,6 +3,8 @@ from props_common import BASE_TB
 PROP = {
     "modules": ["YorkieModel.Props.C01"],
     "engines": [
+        # oracle-only: replicas that edit before SetActor/Attach (known finding c01-pre-attach-edit)
+        {"name": "crdtpre", "quick": {"n": 240, "workers": 4}, "thorough": {"n": 20000, "workers": 8}},
         {"name": "crdt", "quick": {"n": 2400, "workers": 8}, "thorough": {"n": 150000, "workers": 14}},
         {"name": "text", "quick": {"n": 1600, "workers": 8}, "thorough": {"n": 100000, "workers": 14}},
         {"name": "textif", "quick": {"n": 1600, "workers": 8}, "thorough": {"n": 100000, "workers": 14}},
